@@ -276,7 +276,8 @@ func c11main(t *testing.T, prop string) {
 		pn = append(pn, pr[0]+" || "+pr[1])
 	}
 	progs = append([][2]string(nil), progs...)
-	r.Extra["programs"] = pn
+	r.Extra["program_list"] = pn
+	r.Extra["programs"] = len(pn)
 	r.Extra["preemption_bound"] = bound
 	what := "claims"
 	inv := "no record is handed to two claimers; a record deleted by the other request is never returned and never present afterwards (neither among the records nor in the expiry index)"
